@@ -158,10 +158,10 @@ func Snapshot() []Entry {
 	}
 	h := fnv.New64a()
 	h.Write([]byte(strings.Join(types.Universe.Names(), ",")))
-	out = append(out, Entry{"go/types", "Universe.Names", reflect.String, h.Sum64()})
+	out = append(out, Entry{"go/types", "Universe.Names", reflect.Pointer, h.Sum64()}) // shared by every package: a change is a violation
 	h = fnv.New64a()
 	h.Write([]byte(strings.Join(types.Unsafe.Scope().Names(), ",")))
-	out = append(out, Entry{"go/types", "Unsafe.Names", reflect.String, h.Sum64()})
+	out = append(out, Entry{"go/types", "Unsafe.Names", reflect.Pointer, h.Sum64()})
 	sort.Slice(out, func(i, j int) bool { return out[i].Pkg+"."+out[i].Name < out[j].Pkg+"."+out[j].Name })
 	return out
 }
